@@ -259,8 +259,10 @@ class DM14Server:
         if pgn != j1939.ParameterGroupNumber.PGN.DM16 or sa != self.sa:
             return
 
-        length = min(data[0], len(data) - 1)
-        self.data_queue.put(data[1 : length + 1])
+        if self.state == ResponseState.WAIT_FOR_DM16:
+            # data of a write request (on a read this callback only sees the acknowledgement of our own DM16)
+            length = min(data[0], len(data) - 1)
+            self.data_queue.put(data[1 : length + 1])
         self._ca.unsubscribe(self._parse_dm16)
         self._ca.subscribe(self.parse_dm14)
         self.state = ResponseState.SEND_OPERATION_COMPLETE
